@@ -13,6 +13,7 @@ import (
 
 	zerr "github.com/DemoHn/Zn/pkg/error"
 	"github.com/DemoHn/Zn/pkg/exec"
+	r "github.com/DemoHn/Zn/pkg/runtime"
 	"github.com/DemoHn/Zn/pkg/syntax"
 	"github.com/DemoHn/Zn/pkg/syntax/zh"
 )
@@ -367,7 +368,17 @@ func register(commands map[string]hlib.Handler) {
 
 	commands["varinput"] = func(in map[string]interface{}) map[string]interface{} {
 		src := string(hlib.RunesOfCps(in["src"]))
-		m, err := exec.ExecVarInputText(src)
+		var m map[string]r.Element
+		var err error
+		var pnc interface{}
+		printed := hlib.CaptureStdout(func() {
+			defer func() { pnc = recover() }()
+			m, err = exec.ExecVarInputText(src)
+		})
+		_ = printed
+		if pnc != nil {
+			panic(pnc)
+		}
 		if err != nil {
 			out := map[string]interface{}{"ok": false}
 			e := hlib.DumpError(err)
